@@ -76,6 +76,11 @@ static void _GD_ByteSwapFragment(DIRFILE* D, unsigned long byte_sex,
               D->fragment[D->entry[i]->fragment_index].frame_offset, 0, -1,
               NULL))
           break;
+
+        /* no conversion was necessary (e.g. text encoding): there is no
+         * temporary file to move into place */
+        if (D->entry[i]->e->u.raw.file[1].name == NULL)
+          n_raw--;
       }
 
     /* If successful, move the temporary file over the old file, otherwise
